@@ -149,7 +149,7 @@ fn graph_sweep(rep: &Report, me: Prop, max_n: usize) {
 
 // ---------------------------------------------------------------------------- index level
 
-const FLAT: [&str; 4] = ["t1", "t10", "t2", "t20"];
+const FLAT: [&str; 4] = ["t1", "t10", "t\u{e9}", "t\u{e9}s"]; // prefix siblings, ASCII and multi-byte
 
 pub fn setup(root: &Path) {
     // flat dirs with a file each, and the nesting universe used by forests
@@ -179,7 +179,8 @@ fn forest_paths_gap(parent: &[Option<usize>], gaps: u32) -> Vec<String> {
             match i {
                 0 => format!("{}1", pre),
                 1 => format!("{}10", pre),
-                _ => format!("{}{}", pre, i + 1),
+                2 => format!("{}\u{e9}", pre),
+                _ => format!("{}\u{e9}s", pre),
             }
         };
         paths[i] = match parent[i] {
